@@ -19,8 +19,8 @@ CLAIMS = {
    "DESIGN.md section 4 C11"),
  "C12": ("proof",
    "gated call-graph reachability (VTA, one level of constant-argument context), dominance and def-use on go/ssa",
-   "Proof of the structural statement, modulo flock semantics: one lock function with LOCK_EX|LOCK_NB on <configured dir>/lock/base(<device argument>); in both front-ends every call path from an entry point to any effect (file create/write/rename/remove, ssh spawn, device send, HTTP request, process start) passes the success edge of the lock call; the lock handle is kept alive by a deferred Close only; a failed flock is returned as error. All obligations discharged on every run.",
-   "Trusted: flock(2) semantics (exclusive, released by the kernel at process exit/kill), call-graph soundness, effect classification at the module/library boundary (table in c12.go). Not decided: interleavings themselves, NFS, removal of a held lock file by cron.",
+   "Proof of the structural statement, modulo flock semantics: one lock function with LOCK_EX|LOCK_NB on <configured dir>/lock/base(<device argument>); in both front-ends every call path from an entry point to any effect (file create/write/rename/remove, ssh spawn, device send, HTTP request, process start) passes the success edge of the lock call; the lock handle is kept alive by a deferred Close only; a failed flock is returned as error; nothing in the repository (the shell scripts under bin/, os.Remove/RemoveAll/Rename in the Go code) removes or renames entries of the lock directory (one genuine defect found by this rule, the cron job delete-old-policies unlinking held lock files, was repaired: fix e3ca12d). All obligations discharged on every run.",
+   "Trusted: flock(2) semantics (exclusive, released by the kernel at process exit/kill), call-graph soundness, effect classification at the module/library boundary (table in c12.go). Not decided: interleavings themselves, NFS, removal of a held lock file by programs outside the repository.",
    "DESIGN.md section 4 C12"),
  "C16": ("proof",
    "effect-kind classification of every map range on go/ssa with inter-procedural write/emit summaries; table-driven kind-restricted exemptions; AST scans for goroutines/select/random/clock/%p",
@@ -89,7 +89,7 @@ CLAIMS = {
    "DESIGN.md section 4 C17, E4"),
  "C20": ("other",
    "enumeration of crash obligations: explicit panics (go/ssa), the bounds checks the Go compiler's prove pass cannot eliminate (-d=ssa/check_bce with a build overlay, both toolchains in the thorough tier) mapped to AST expressions and compared as a multiset with an audit table, nil-guard dominance rule for nillable sources, type-assertion audit, acyclicity of the reference graph read from the cmdInfo literals",
-   "Does NOT prove crash-freedom. It decides, on every run, that every potential crash site in the code that handles input files is either proved safe by the compiler, covered by a written invariant in an audit table (with machine checks for the NSX singleton invariant — that the validity check runs on every parse and that it rejects an empty list for each of the four fields —, the compile-time tables, guards on captured slices), or an explicitly listed known finding (31 today, each reproduced with drc; three more were repaired by fix: commits; pointers decoded by address count as nillable) — so that a new unproven index expression, a removed guard, a new panic, a new unguarded nillable dereference or a reference cycle cannot appear unnoticed.",
+   "Does NOT prove crash-freedom. It decides, on every run, that every potential crash site in the code that handles input files is either proved safe by the compiler, covered by a written invariant in an audit table (with machine checks for the NSX singleton invariant — that the validity check runs on every parse and that it rejects an empty list for each of the four fields —, the compile-time tables, guards on captured slices), or an explicitly listed known finding (31 today, each reproduced with drc; three more were repaired by fix: commits; pointers decoded by address count as nillable; writes into maps that may be nil are residuals of their own) — so that a new unproven index expression, a removed guard, a new panic, a new unguarded nillable dereference or a reference cycle cannot appear unnoticed.",
    "Trusted: soundness of the Go compiler's bounds-check elimination; go/ssa; the invariants I1..I6 written in tables/bounds_audit.tsv. Hangs are covered only for the recursive walkers (R20.5).",
    "DESIGN.md section 4 C20, E5"),
 }
